@@ -8,7 +8,7 @@ def m(prop, id, file, find, replace, expect, why, source="design", more=None, al
     if all:
         d["all"] = True
     if more:
-        d["more"] = [dict(find=f, replace=r) for f, r in more]
+        d["more"] = [dict(find=e[0], replace=e[1], **({"file": e[2]} if len(e) > 2 else {})) for e in more]
     M.append(d)
 
 FSM = "channels/channels_fsm.go"
@@ -941,6 +941,69 @@ m("C18", "duplicate-request-fails-existing", RR,
   "	result, err := m.acceptRequest(chid, incoming)\n",
   "	result, err := m.acceptRequest(chid, incoming)\n	if err != nil {\n		_ = m.channels.Error(chid, err)\n	}\n",
   "C18.3", "a duplicate new-request fails the existing healthy channel", "seeded/C18b")
+
+# ---------------- round-2 seeded regressions
+m("C04", "data-limit-only-raised", RR,
+  "	if result.DataLimit != chst.DataLimit() {",
+  "	if (result.DataLimit == 0 && chst.DataLimit() != 0) || result.DataLimit > chst.DataLimit() {",
+  "C04.8", "a lowered data limit is not recorded", "seeded/C04r2b")
+m("C04", "restart-opens-transport-although-rejected", RC,
+  "		if (response.IsNew() || response.IsRestart()) && response.Accepted() && !incoming.IsPull() {",
+  "		if (response.IsNew() && response.Accepted() || response.IsRestart()) && !incoming.IsPull() {",
+  "C04.5", "a rejected push restart still opens the transport channel", "seeded/C04r2a")
+m("C09", "async-cancel-on-caller-context", IMPL,
+  "		sctx, cancel := context.WithTimeout(context.Background(), cancelSendTimeout)",
+  "		sctx, cancel := context.WithTimeout(ctx, cancelSendTimeout)",
+  "C09.5", "cancel message lost once the caller releases its context", "seeded/C09r2a")
+m("C10", "restart-state-read-before-processing", RC,
+  "	response, receiveErr := r.manager.OnRequestReceived(chid, incoming)\n",
+  "	var channel datatransfer.ChannelState\n	if incoming.IsRestart() && !incoming.IsPull() {\n		channel, _ = r.manager.channels.GetByID(ctx, chid)\n	}\n	response, receiveErr := r.manager.OnRequestReceived(chid, incoming)\n",
+  "C10.7", "transport re-opened with channel state read before the restart was processed", "seeded/C10r2b",
+  more=[("			var channel datatransfer.ChannelState\n			if response.IsRestart() {\n				var err error\n				channel, err = r.manager.channels.GetByID(ctx, chid)\n				if err != nil {\n					return err\n				}\n			}\n\n", "")])
+m("C14", "monitor-added-after-send", IMPL,
+  "	monitoredChan := m.channelMonitor.AddPushChannel(chid)\n",
+  "",
+  "C14.7", "an Accept that arrives promptly is missed and the accept timeout closes a healthy channel", "seeded/C14r2b",
+  more=[("		// If push channel monitoring is enabled, shutdown the monitor as it\n		// wasn't possible to start the data transfer\n		if monitoredChan != nil {\n			monitoredChan.Shutdown()\n		}\n\n		return chid, err\n	}\n\n	return chid, nil",
+         "		return chid, err\n	}\n	m.channelMonitor.AddPushChannel(chid)\n	return chid, nil")])
+m("C14", "unsent-request-keeps-monitor", IMPL,
+  "		if monitoredChan != nil {\n			monitoredChan.Shutdown()\n		}\n\n		return chid, err",
+  "		_ = monitoredChan\n		return chid, err",
+  "C14.7", "the monitor of a request that was never sent keeps running and later closes/restarts the channel")
+m("C19", "restart-records-unsent-result", RS,
+  "	// send a libp2p message to the other peer asking to send a \"restart push request\"\n",
+  "	if err := m.recordAcceptedValidationEvents(channel, result); err != nil {\n		return err\n	}\n	// send a libp2p message to the other peer asking to send a \"restart push request\"\n",
+  "C19.6", "the responder records a voucher result it never sent", "seeded/C19r2b")
+m("C20", "close-stops-monitor-inside-callback", IMPL,
+  "	// Close the channel on the local transport\n	err = m.transport.CloseChannel(ctx, chid)\n	if err != nil {\n		span.RecordError(err)",
+  "	m.channelMonitor.ShutdownChannel(chid)\n	// Close the channel on the local transport\n	err = m.transport.CloseChannel(ctx, chid)\n	if err != nil {\n		span.RecordError(err)",
+  "C20.3", "closing from inside a subscriber unsubscribes under the pubsub lock: deadlock", "seeded/C20r2b",
+  more=[("// onShutdown shuts down all monitored channels. It is called when the run\n", "func (m *Monitor) ShutdownChannel(chid datatransfer.ChannelID) {\n	m.lk.RLock()\n	ch, ok := m.channels[chid]\n	m.lk.RUnlock()\n	if ok {\n		ch.Shutdown()\n	}\n}\n\n// onShutdown shuts down all monitored channels. It is called when the run\n", CM)])
+m("C20", "channels-for-peer-relocks", GS,
+  "			if t.dtChannels[chid] != nil && t.dtChannels[chid].requestID != nil && (*t.dtChannels[chid].requestID) == requestID {",
+  "			ch, err := t.getDTChannel(chid)\n			if err == nil && ch.requestID != nil && (*ch.requestID) == requestID {",
+  "C20.3", "read lock re-acquired while held: a writer in between deadlocks both", "seeded/C20r2a")
+m("C07", "refused-cas-not-retried", CA,
+  "	for {\n		currentIndex := atomic.LoadInt64(value)\n		if newIndex <= currentIndex {\n			return false, nil\n		}\n		if atomic.CompareAndSwapInt64(value, currentIndex, newIndex) {\n			return true, nil\n		}\n	}",
+  "	currentIndex := atomic.LoadInt64(value)\n	if newIndex <= currentIndex {\n		return false, nil\n	}\n	return atomic.CompareAndSwapInt64(value, currentIndex, newIndex), nil",
+  "C07.2", "a report that loses the CAS race is dropped although it is above the mark", "seeded/C07r2a")
+m("C05", "restart-base-cid-by-hash", RS,
+  "	if req.BaseCid() != channel.BaseCID() {",
+  "	if !bytes.Equal(req.BaseCid().Hash(), channel.BaseCID().Hash()) {",
+  "C05.3", "restart request accepted with a different base CID", "seeded/C05r2b",
+  more=[("import (\n", "import (\n	\"bytes\"\n")])
+m("C05", "extension-checks-own-role-only", GS,
+  "		if (chid != datatransfer.ChannelID{ID: msg.TransferID(), Initiator: p, Responder: t.peerID}) {",
+  "		if chid.Responder != t.peerID || chid.ID != msg.TransferID() {",
+  "C05.2", "a stranger's request is applied to the counterparty's channel", "seeded/C05r2a")
+m("C03", "completed-again-skips-finalization", EV,
+  "	if chst.RequiresFinalization() {\n		return m.channels.BeginFinalizing(chid)",
+  "	if chst.RequiresFinalization() && chst.Status() != datatransfer.Finalizing {\n		return m.channels.BeginFinalizing(chid)",
+  "C03.6", "a channel waiting for final settlement completes without it", "seeded/C03r2b")
+m("C08", "reply-pause-ignores-limits", IMPL,
+  "	response, msgErr := message.ValidationResultResponse(messageType, chst.TransferID(), result, err,\n		result.LeaveRequestPaused(chst))",
+  "	response, msgErr := message.ValidationResultResponse(messageType, chst.TransferID(), result, err, result.ForcePause)",
+  "C04.7", "revalidation reply says unpaused although the request stays paused", "seeded/C01r2a")
 
 # ---------------- neutral variants: behaviour-preserving edits that must NOT be reported
 def n(props, id, file, find, replace, why, more=None, all=False):
